@@ -167,13 +167,13 @@ abbrev Edge3 := V3 ℝ × V3 ℝ
 
 /-- equality of 1-chains of directed edges of 3-space -/
 def EdgeChainEq3 (E F : List Edge3) : Prop :=
-  ∀ (G : Type) [AddCommGroup G] (φ : Edge3 → G), OddEdge φ → esum φ E = esum φ F
+  ∀ (G : Type) [AddCommGroup G] (φ : Edge3 → G), OddEdge2 φ → esum φ E = esum φ F
 
 def _root_.Spec.In2D.Tri3.bdry (t : Tri3 ℝ) : List Edge3 := [(t.a, t.b), (t.b, t.c), (t.c, t.a)]
 
 /-- a chain identity in space projects to the chain identity in any frame -/
 theorem EdgeChainEq3.project {E F : List Edge3} (h : EdgeChainEq3 E F) (g : V3 ℝ → P2 ℝ) :
-    EdgeChainEq (E.map fun e => (g e.1, g e.2)) (F.map fun e => (g e.1, g e.2)) := by
+    EdgeChainEq2 (E.map fun e => (g e.1, g e.2)) (F.map fun e => (g e.1, g e.2)) := by
   intro G _ φ hφ
   have := h G (fun e => φ (g e.1, g e.2)) (fun a b => hφ (g a) (g b))
   simpa [esum, List.map_map, Function.comp_def] using this
